@@ -46,6 +46,7 @@ func c14Menu(initial int) []c14Doc {
 	valid := []c14Doc{
 		{Name: "V-new-types", SDL: "type N1 { x: Int }\nenum NE { P Q }\n"},
 		{Name: "V-extend-object", SDL: "extend type " + q + " { added: Int }\n"},
+		{Name: "V-new-scalar", SDL: "scalar Day\n"},
 		{Name: "V-directive-def-and-use", SDL: "directive @nd(k: Int = 1) on OBJECT\ntype N2 @nd(k: 2) { y: Int }\n"},
 		// a directive use whose argument is an input object: validation coerces such values (and fills defaults in)
 		{Name: "V-directive-with-input-object-argument", SDL: "directive @cfg(opt: Opt, opts: [Opt]) on OBJECT\ninput Opt { a: Int }\ntype Cfgd @cfg(opt: {a: 1}, opts: [{a: 2}]) { x: Int }\n"},
@@ -78,6 +79,9 @@ func c14Menu(initial int) []c14Doc {
 		// the implicit schema extended in the failing document, beside a root type arriving with it
 		prefixes = append(prefixes, struct{ name, sdl string }{"new-root-type-and-extend-schema", "type Subscription { ps: Int }\nextend schema @pd2 { }\ndirective @pd2 on SCHEMA\n"})
 	}
+	// scalars that exist already (Date in the kitchen sink, Day after V-new-scalar; elsewhere they are simply new) declared
+	// again, with a description this time: the existing scalar is kept, and nothing of the refused load may stick to it
+	prefixes = append(prefixes, struct{ name, sdl string }{"scalars-declared-again-with-descriptions", "\"A day, says a load that may be refused.\" scalar Day\n\"A date, likewise.\" scalar Date\n"})
 	failures := []struct{ name, sdl string }{
 		{"syntax-error", "type Broken { x: \n"},
 		{"undefined-reference", "type Bad1 { y: Zq7 }\n"},
